@@ -24,6 +24,7 @@ func NewTransientLockMap() *TransientLockMap {
 // Lock acquires the lock for the specified key and returns true, unless the context finishes before the lock could be
 // acquired, in which case false is returned.
 func (l *TransientLockMap) Lock(ctx context.Context, key string) bool {
+	verifYield("lockmap.Lock.enter", nil)
 	lock := func() *countedLock {
 		// If there is high lock contention, we could use a readonly lock to check if the lock is already in the map (and
 		// thus no map writes are necessary), but this is complicated enough as it is so we skip that optimization for now.
@@ -46,7 +47,9 @@ func (l *TransientLockMap) Lock(ctx context.Context, key string) bool {
 		return lock
 	}()
 
+	verifYield("lockmap.Lock.acquire", func() bool { return lock.verifFree() || ctx.Err() != nil })
 	if !lock.Lock(ctx) {
+		verifYield("lockmap.Lock.cancelled", nil)
 		l.returnLockObj(key, lock)
 		return false
 	}
@@ -55,6 +58,7 @@ func (l *TransientLockMap) Lock(ctx context.Context, key string) bool {
 
 // Unlock unlocks the lock for the specified key. Panics if the lock is not currently held.
 func (l *TransientLockMap) Unlock(key string) {
+	verifYield("lockmap.Unlock.enter", nil)
 	lock := func() *countedLock {
 		l.mu.Lock()
 		defer l.mu.Unlock()
@@ -66,7 +70,9 @@ func (l *TransientLockMap) Unlock(key string) {
 		return lock
 	}()
 
+	verifYield("lockmap.Unlock.found", nil)
 	lock.Unlock()
+	verifYield("lockmap.Unlock.released", nil)
 	l.returnLockObj(key, lock)
 }
 
